@@ -75,6 +75,19 @@ class GL(typing.List[T]):
         return 'GL(' + list.__repr__(self) + ')'
 
 
+class GReg(typing.Dict[T, GL[str]]):
+    """User generic whose base mentions *another* generic, concretely subscripted, over the same type variable:
+    GReg[int] maps int keys to GL[str] values."""
+    def __repr__(self):
+        return 'GReg(' + dict.__repr__(self) + ')'
+
+
+class GOut(typing.List[GL[str]], Generic[T]):
+    """GOut[int] is a list of GL[str] (the parameter of GOut is otherwise unused)."""
+    def __repr__(self):
+        return 'GOut(' + list.__repr__(self) + ')'
+
+
 # --- user-defined carriers (pure collections.abc implementations) -----------
 class USeq(cabc.Sequence):
     def __init__(self, items=()):
@@ -337,7 +350,7 @@ FinI = typing.Final[int]
 
 # Names visible to eval() of rendered hint / object sources (replay scripts).
 NAMESPACE = {
-    'TD': TD, 'TDo': TDo, 'NT': NT, 'DC': DC, 'UCM': UCM, 'AL': AL, 'ALg': ALg, 'ALr': ALr, 'ALgi': ALgi, 'TupU': TupU, 'TupUU': TupUU,
+    'GReg': GReg, 'GOut': GOut, 'TD': TD, 'TDo': TDo, 'NT': NT, 'DC': DC, 'UCM': UCM, 'AL': AL, 'ALg': ALg, 'ALr': ALr, 'ALgi': ALgi, 'TupU': TupU, 'TupUU': TupUU,
     'PatS': PatS, 'MatS': MatS, 'GenI': GenI, 'CtxI': CtxI, 'PathS': PathS, 'InitI': InitI, 'FinI': FinI, 're': re, 'pathlib': pathlib,
     'K': K, 'K2': K2, 'Other': Other, 'E': E, 'IE': IE, 'NL': NL, 'NF': NF, 'TF': TF, 'TL': TL, 'TU': TU, 'N': N, 'T': T, 'TB': TB, 'TC': TC, 'P': P, 'PImpl': PImpl,
     'G': G, 'GL': GL, 'USeq': USeq, 'UMSeq': UMSeq, 'UMap': UMap, 'UMMap': UMMap, 'USet': USet,
